@@ -4,6 +4,7 @@
 pub mod cards;
 pub mod derived;
 pub mod hist;
+pub mod maint;
 pub mod search;
 pub mod sidecar;
 pub mod tickets;
@@ -177,6 +178,26 @@ pub fn main() {
                 "c16" => search::c16(&mut rep, &scratch, &mut rng, corpora, queries, max_docs),
                 "c28" => search::c28(&mut rep, &scratch, &mut rng, corpora, max_docs),
                 _ => search::c12(&mut rep, &scratch, &mut rng, corpora, queries, max_docs),
+            }
+            rep
+        }
+        "c08" | "c18" | "c40" | "c42" => {
+            let seed = args.u64("seed", 1);
+            let scratch = PathBuf::from(args.str("scratch").unwrap_or("."));
+            let n = args.u64("histories", 4);
+            let mut rng = Rng::new(seed);
+            let (pid, rule) = match mode.as_str() {
+                "c08" => ("C08", "histories of 4..12 puts (unique token per document, some chunked, some embedded, titles/tracks/kinds/tags/labels/metadata), commit, then deletes and updates (with/without payload, title, new embedding) of a random subset; after the commit and after reopen every old version is looked for through search (pre-filter on/off, paginated), search_vec, vec_search_with_embedding, search_adaptive, ask, timeline and frame_by_uri; a case is one delete/update; distinct = distinct histories"),
+                "c18" => ("C18", "random committed states, half of them with extra puts still pending in the log; the file is copied as it is on disk, hashed, opened read-only, 5..30 random read calls, dropped, hashed again; then verify(deep or not) and hashed again; a case is one session; distinct = distinct histories"),
+                "c40" => ("C40", "document sets of 3..25 payloads (text, chunked text, binary, with and without embeddings) ingested by plain puts + commit, by begin_batch(random options)/end_batch + commit, and by puts with 1..4 commit_skip_indexes followed by finalize_indexes; frames, timeline, lexical and vector search compared before close and after reopen; a case is one document set; distinct = distinct (set size, options)"),
+                _ => ("C42", "histories of puts, deletes, updates with new payload and payload-reusing updates, commit, then vacuum (directly or through doctor); model comparison with content, searches for every token and the timeline compared before/after on the same handle and after reopen; verify(deep) must pass; a case is one delete/update; distinct = distinct histories"),
+            };
+            let mut rep = Report::new(pid, &format!("maintenance[{mode}]"), seed, rule);
+            match mode.as_str() {
+                "c08" => maint::c08(&mut rep, &scratch, &mut rng, n),
+                "c18" => maint::c18(&mut rep, &scratch, &mut rng, n),
+                "c40" => maint::c40(&mut rep, &scratch, &mut rng, n),
+                _ => maint::c42(&mut rep, &scratch, &mut rng, n),
             }
             rep
         }
